@@ -275,6 +275,33 @@ func (c04) Build(tier string, seed uint64) []any {
 		}
 		cs = append(cs, c)
 	}
+	// (pktff) many non-empty packets (small precincts) whose code-block byte counts are spread
+	// widely (content class varnoise).  A packet header whose bits end exactly on a byte boundary with a final 0xFF
+	// (stuffing byte owed, about one non-trivial packet in two thousand) needs tens of
+	// thousands of packets per run; the verifhook counters t2.bio.flush_ff /
+	// t2.bior.align_boundary_ff in the evidence say how often it happened.
+	nPkt := 24
+	if th {
+		nPkt = 600
+	}
+	for i := 0; i < nPkt; i++ {
+		r := gen.Sub(seed, "C04", "pktff", i)
+		c := &j2kCase{Gen: "pktff"}
+		randJ2KConfig(r, c)
+		c.C = gen.Pick(r, 1, 1, 3)
+		c.P = gen.Pick(r, 10, 12, 14, 16)
+		c.Levels = 1 + r.Intn(3)
+		c.PW, c.PH = gen.Pick(r, 32, 32, 64), gen.Pick(r, 32, 32, 64)
+		c.CBW, c.CBH = gen.Pick(r, 16, 16, 32), gen.Pick(r, 16, 16, 32)
+		c.Layers = gen.Pick(r, 1, 1, 2)
+		c.W, c.H = 192+r.Intn(130), 192+r.Intn(130)
+		c.Class = "varnoise"
+		cs = append(cs, c)
+	}
+	for i := range hdrffCases {
+		c := hdrffCases[i]
+		cs = append(cs, &c)
+	}
 	for i := 0; i < nContent; i++ {
 		r := gen.Sub(seed, "C04", "content", i)
 		c := &j2kCase{Gen: "content"}
